@@ -405,8 +405,15 @@ struct Run {
       unsigned cv = D.norm(coef);
       // source
       DCol src; std::string srckind; unsigned sidx = 0; std::vector<Entry> range; bool range_is_column = false;
+      bool self_source = false;
       if (by_index) {
-        if (!pick_col(sidx, (int)r.below(3), (long)t)) { c.count("skip.no_distinct_source"); return true; }
+        // "any sequence of column additions": the source may be the target itself (or, with compression, another member of
+        // the target's class, i.e. the same stored column)
+        if (r.chance(1, 12)) {
+          sidx = t; self_source = true;
+          if constexpr (COMP) { std::vector<unsigned> mem = D.members(t); sidx = r.pick(mem); }
+          c.count("op.additive_with_source_equal_to_target");
+        } else if (!pick_col(sidx, (int)r.below(3), (long)t)) { c.count("skip.no_distinct_source"); return true; }
         src = D.col[sidx]; srckind = "index";
       } else {
         // an entry range: either a vector of entries (only in an ordered state: its row indices are public ones), or a
@@ -433,7 +440,7 @@ struct Run {
         }
       }
       const bool tz = D.zero_col(t), sz = Dense::is_zero(src);
-      opsig = std::string("op=") + kname[kind] + (by_index ? "" : ",src=range") + (sz ? ",src=empty" : "") + (tz ? ",tgt=empty" : "") +
+      opsig = std::string("op=") + kname[kind] + (by_index ? "" : ",src=range") + (self_source ? ",src=target" : "") + (sz ? ",src=empty" : "") + (tz ? ",tgt=empty" : "") +
               ((kind && cv == 0) ? ",coef=zero" : "") + (raw == "below-p" ? ",coef_below_minus_p" : "") + pend;
       c.log(std::string(kname[kind]) + " src=" + (srckind == "range_vector" ? std::string("range") : vh::str(sidx) + (range_is_column ? "(get_column)" : "")) +
             " coef=" + vh::str(coef) + " tgt=" + vh::str(t));
